@@ -90,7 +90,8 @@ def sig_oracle(modn=(), int_msg=False, blocks=False, ok_malleations=(), extra=No
                 v.bad('expected=reject|got=accept', 'verification accepted although %s changed in value' % ch)
         for other in vers[1:]:
             if s.ver[other] != got:
-                v.bad('equivalent-verifiers-disagree', '%s says %s, %s says %s' % (vers[0], got, other, s.ver[other]))
+                v.bad('equivalent-verifiers-disagree' + ('|large-coefficients' if s.scheme == 'mklhs' and s.opts.get('cls') == '1' else ''),
+                      '%s says %s, %s says %s' % (vers[0], got, other, s.ver[other]))
         if extra:
             extra(s, ctx, v, out)
     return oracle
@@ -153,7 +154,8 @@ SCHEMES.update({
                 opts=lambda rng: dict(k=rng.randint(1, 3))),
     'mklhs': Spec('C05', 5, dict(pk0='g2', pk1='g2', sig='g1', m='bn', mu0='bn', mu1='bn'),
                   sig_oracle(modn=('m', 'mu0', 'mu1', 'mu2'), vers=('ver', 'onv')), pc=True,
-                  opts=lambda rng: dict(ord=rng.below(1 << 16), k=rng.choice([0, 1, 1, 2, 2]), n=rng.choice([0, 1, 1, 2]))),
+                  opts=lambda rng: dict(ord=rng.below(1 << 16), k=rng.choice([0, 1, 1, 2, 2]), n=rng.choice([0, 1, 1, 2]),
+                                        cls=1 if rng.chance(0.25) else 0)),      # cls: coefficients with the top bits set
 })
 
 
